@@ -206,7 +206,12 @@ func (fs *faultSession) Exec(line string) (obs, viol string) {
 		return "panic-abort", ""
 	}
 	if !strings.HasPrefix(o1, "err") {
+		// fault swallowed (or retried inside the call), the call succeeded: the operation's own
+		// oracle applies to what it returned
 		fs.lastObs = o1
+		if fs.lastViol != "" {
+			return o1, fmt.Sprintf("with call %d of kind %s failing once the call succeeded, and: %s", idx, kind, fs.lastViol)
+		}
 		return o1, ""
 	}
 	fs.Oracle[slot] = oracleBefore
